@@ -1794,11 +1794,24 @@ def check_constructor_chain(rep, repo, err, base, fam):
                 if not any(k.arg is None and isinstance(k.value, ast.Name) and k.value.id == kwn for k in call.keywords) or _name_stores(m, kwn):
                     why = 'does not pass its **%s on' % kwn
                 else:
+                    def handed_on(pop_call, key):
+                        """``v = kw.pop('<key>', ...)`` whose value goes to the next constructor under the same name (or as the
+                        leading positional argument that ``detail`` is)"""
+                        par = c.mod.parents.get(pop_call)
+                        if not (isinstance(par, ast.Assign) and par.value is pop_call and len(par.targets) == 1 and isinstance(par.targets[0], ast.Name)):
+                            return False
+                        v = par.targets[0].id
+                        if len(_name_stores(m, v)) != 1:
+                            return False
+                        return any(k.arg == key and isinstance(k.value, ast.Name) and k.value.id == v for k in call.keywords) or \
+                            (key == 'detail' and args and isinstance(args[0], ast.Name) and args[0].id == v)
                     for n in walk_body(m.node):
                         key = None
                         if isinstance(n, ast.Call) and isinstance(n.func, ast.Attribute) and norm(n.func.value) == kwn:
                             if n.func.attr in ('pop', 'setdefault', '__setitem__', '__delitem__') and n.args:
                                 key = n.args[0].value if isinstance(n.args[0], ast.Constant) else '<computed>'
+                                if n.func.attr == 'pop' and isinstance(key, str) and handed_on(n, key):
+                                    key = None
                             elif n.func.attr in ('clear', 'popitem'):
                                 key = '<any>'
                             elif n.func.attr == 'update':
@@ -1813,7 +1826,15 @@ def check_constructor_chain(rep, repo, err, base, fam):
                         if key is not None and (key in std or key in ('<computed>', '<any>')):
                             why = 'takes %r out of / overwrites it in **%s before the next constructor sees it' % (key, kwn)
                 # explicit keywords of the call that shadow what the caller gave
-                fixed = [k.arg for k in call.keywords if k.arg in std and not (isinstance(k.value, ast.Name) and k.value.id == k.arg)]
+                def passes_given(k):
+                    if not isinstance(k.value, ast.Name):
+                        return False
+                    if k.value.id == k.arg and k.arg in _param_names(m):
+                        return True
+                    src = local_value(m, k.value.id)
+                    return isinstance(src, ast.Call) and isinstance(src.func, ast.Attribute) and src.func.attr == 'pop' and norm(src.func.value) == kwn and \
+                        bool(src.args) and isinstance(src.args[0], ast.Constant) and src.args[0].value == k.arg
+                fixed = [k.arg for k in call.keywords if k.arg in std and not passes_given(k)]
                 if why is None and fixed:
                     why = 'passes a fixed %s= to the next constructor' % fixed[0]
             if why is None and van is not None and not any(isinstance(x, ast.Starred) and isinstance(x.value, ast.Name) and x.value.id == van for x in args):
